@@ -11,6 +11,17 @@ fn main() {
         usage();
     }
     match args[1].as_str() {
+        "fuzzin" => {
+            // run one libFuzzer input through the same entry the fuzz target uses
+            let data = std::fs::read(&args[3]).expect("input file");
+            let rc = match args[2].as_str() {
+                "C10" => utpverif::engine::fuzz_case::<utpverif::props::c10::Hostile>("C10", &utpverif::props::c10::decode(&data)),
+                "C11" => utpverif::engine::fuzz_case::<utpverif::props::c11::Raw>("C11", &utpverif::props::c11::RawCase { bytes: data }),
+                _ => 2,
+            };
+            println!("rc={rc}");
+            std::process::exit(rc);
+        }
         "list" => {
             for id in utpverif::props::ALL {
                 println!("{id}");
